@@ -68,3 +68,23 @@ func TestVerifWitness_D7(t *testing.T) {
 	}
 	fmt.Printf("WITNESS-PASSES D7 all markers name a line in 1..%d\n", nlines)
 }
+
+// D17: a condition whose '&&' operand is followed by something other than ')', '&&' or '||' is accepted by the parser
+// with that token's type as the operator of a binary node; the emitter then crashes on it
+// (obligation parser.Parser.parseRightSideExpression/ensures[C02,C18:binary-ok]@ret4)
+func TestVerifWitness_D17(t *testing.T) {
+	defer func() {
+		if r := recover(); r != nil {
+			fmt.Printf("WITNESS-FAILS D17 panic: %v\n", r)
+		}
+	}()
+	src := "script S { if (flag(Z) || flag(A) && flag(B) x flag(C)) { foo } }"
+	p := parser.New(lexer.New(src), parser.CommandConfig{}, "", "", 0, nil)
+	prog, err := p.ParseProgram()
+	if err != nil {
+		fmt.Printf("WITNESS-PASSES D17 rejected by the parser: %v\n", err)
+		return
+	}
+	_, err = New(prog, false, false, "").Emit()
+	fmt.Printf("WITNESS-PASSES D17 no panic (emit err=%v)\n", err)
+}
